@@ -809,9 +809,10 @@ impl CodeMap {
 	pub fn insn_or_end(&self, pc: u32) -> Result<usize, String> {
 		if pc == self.code_length { Ok(self.count) } else { self.insn_at(pc) }
 	}
-	/// [start_pc, start_pc + length) as instruction indices (both ends may be the end of the code)
+	/// [start_pc, start_pc + length) as instruction indices; start_pc must be an instruction, the end
+	/// may be the end of the code (JVMS 4.7.13, 4.7.20.1)
 	pub fn range(&self, start_pc: u16, length: u16) -> Result<(usize, usize), String> {
-		let s = self.insn_or_end(start_pc as u32).map_err(|e| format!("start_pc: {e}"))?;
+		let s = self.insn_at(start_pc as u32).map_err(|e| format!("start_pc: {e}"))?;
 		let end = start_pc as u32 + length as u32;
 		if end > self.code_length { return Err(format!("start_pc {start_pc} + length {length} exceeds code length {}", self.code_length)); }
 		let e = self.insn_or_end(end).map_err(|e| format!("start_pc + length: {e}"))?;
@@ -1204,4 +1205,29 @@ fn write_attr_info(w: &mut W, info: &AttrInfo) {
 			for c in v { w.u2(c.name_index); w.u2(c.descriptor_index); write_attrs(w, &c.attributes); }
 		}
 	}
+}
+
+// ------------------------------------------------------------------------------------------
+// attribute locations (JVMS Table 4.7-C)
+// ------------------------------------------------------------------------------------------
+
+#[derive(Clone, Copy, PartialEq, Eq, Debug)]
+pub enum AttrLoc { Class, Field, Method, Code, RecordComponent }
+
+/// Is `name` an attribute that the JVMS defines for this location?  (`parse` decodes exactly
+/// those structurally; every other (name, location) pair is kept as `AttrInfo::Unknown`.)
+pub fn predefined_at(name: &str, loc: AttrLoc) -> bool {
+	use AttrLoc::*;
+	let locs: &[AttrLoc] = match name {
+		"SourceFile" | "InnerClasses" | "EnclosingMethod" | "SourceDebugExtension" | "BootstrapMethods" | "Module" | "ModulePackages"
+		| "ModuleMainClass" | "NestHost" | "NestMembers" | "Record" | "PermittedSubclasses" => &[Class],
+		"ConstantValue" => &[Field],
+		"Code" | "Exceptions" | "RuntimeVisibleParameterAnnotations" | "RuntimeInvisibleParameterAnnotations" | "AnnotationDefault" | "MethodParameters" => &[Method],
+		"Synthetic" | "Deprecated" => &[Class, Field, Method],
+		"Signature" | "RuntimeVisibleAnnotations" | "RuntimeInvisibleAnnotations" => &[Class, Field, Method, RecordComponent],
+		"LineNumberTable" | "LocalVariableTable" | "LocalVariableTypeTable" | "StackMapTable" => &[Code],
+		"RuntimeVisibleTypeAnnotations" | "RuntimeInvisibleTypeAnnotations" => &[Class, Field, Method, Code, RecordComponent],
+		_ => &[],
+	};
+	locs.contains(&loc)
 }
